@@ -285,6 +285,9 @@ type discardConn struct{ fakeConn }
 func (c *discardConn) WriteTo(p []byte, _ net.Addr) (int, error) { return len(p), nil }
 
 func runC17(sh *core.Shard, a props.Args) {
+	if !runC17Concurrent(sh, a) {
+		return
+	}
 	seqs := a.Pick(30000, 2000000)
 	stats := map[string]int64{}
 	for i := 0; i < seqs; i++ {
@@ -360,12 +363,12 @@ func isD2(ops []c17Op, what string) bool {
 func init() {
 	props.Register(&props.Prop{
 		ID: "C17", Level: "exploration",
-		Rule: "seeded operation sequences (10-50 ops over 2-6 keys: upsert incl. empty values and immediate repeats, delete incl. absent/already-deleted keys, delete-then-recreate, compact(1..3), repeated compaction, leave, compaction after leave) on the real clusterState against a last-write-wins reference; after every operation: live map, tombstone set, left flag, version discipline (fresh larger version on effective change, byte-identical state after a no-op, distinct versions). Every 8th sequence is also run on a 3-node simulator with a lagging (lossy) and a fresh observer. Non-trivial = the sequence contained an effective compaction; distinct = hash of the operation list.",
+		Rule: "seeded operation sequences (10-50 ops over 2-6 keys: upsert incl. empty values and immediate repeats, delete incl. absent/already-deleted keys, delete-then-recreate, compact(1..3), repeated compaction, leave, compaction after leave) on the real clusterState against a last-write-wins reference; after every operation: live map, tombstone set, left flag, version discipline (fresh larger version on effective change, byte-identical state after a no-op, distinct versions). Every 8th sequence is also run on a 3-node simulator with a lagging (lossy) and a fresh observer. Concurrent leg: per round every key shows its only writer's last write, versions are distinct, and a fresh observer fed a full delta ends with the same live state. Non-trivial = the sequence contained an effective compaction; distinct = hash of the operation list.",
 		Assumptions: []string{
 			"keys under the reserved prefix _internal: are not used by callers",
-			"single goroutine (the state is mutex-protected; concurrency is C20)",
+			"the sequence legs run on a single goroutine; the concurrent leg (2-4 writers with disjoint keys plus a compactor released together, judged at quiescence) leaves the interleaving to the OS scheduler; data races are C20's concern",
 		},
-		RequireCounters: []string{"effective_compactions", "noop_ops", "observer_syncs", "upsert_empty_after_delete"},
+		RequireCounters: []string{"effective_compactions", "noop_ops", "observer_syncs", "upsert_empty_after_delete", "concurrent_rounds", "concurrent_versions_consumed"},
 		Timeout:         simTimeout(10*time.Minute, 90*time.Minute),
 		Run:             runC17,
 	})
